@@ -61,6 +61,9 @@ DIST_OPS = ["gjk_jolt", "gjk_original", "nesterov_distance", "nesterov_prim_dist
 POLY = ["box", "hull", "mesh"]
 
 
+C07_KNOWN = set()      # filled in run(): recorded findings of C07 whose input classes are skipped here
+
+
 # ============================================================================= colliders: generation
 def spec_sizes(spec):
     out = []
@@ -289,6 +292,36 @@ def diameter_bound(spec):
     return 2.0 * nw.feature_size(spec) * math.sqrt(3.0)
 
 
+def foreign_known(prop):
+    """ids of the recorded (status = finding) known findings of another property"""
+    ids = set()
+    for f in [cm.VERIF / "known_findings.json", cm.VERIF / f"known_findings_{prop}.json"]:
+        if f.exists():
+            try:
+                for e in json.loads(f.read_text())["entries"]:
+                    if e.get("property") == prop and e.get("status") == "finding":
+                        ids.add(e["id"])
+            except (ValueError, KeyError):
+                pass
+    return ids
+
+
+def inward_wound(simplex):
+    """class of the C07 finding F21: the four simplex rows A,B,C,D handed to epa() have det(D-A, B-A, C-A) > 0
+    (evaluated exactly)"""
+    if simplex is None or len(simplex) != 4:
+        return False
+    try:
+        Aq, Bq, Cq, Dq = ([Fr(float(x)) for x in row] for row in simplex)
+    except (TypeError, ValueError, OverflowError):
+        return False
+    u = [Dq[i] - Aq[i] for i in range(3)]
+    v = [Bq[i] - Aq[i] for i in range(3)]
+    w = [Cq[i] - Aq[i] for i in range(3)]
+    det = (u[0] * (v[1] * w[2] - v[2] * w[1]) - u[1] * (v[0] * w[2] - v[2] * w[0]) + u[2] * (v[0] * w[1] - v[1] * w[0]))
+    return det > 0
+
+
 class Tally(dict):
     def hit(self, k, n=1):
         self[k] = self.get(k, 0) + n
@@ -459,6 +492,9 @@ def judge_narrow(R, scene, res, T, member_queue):
                     continue
                 if (a0.get("n_points") or 0) < 4 or (av.get("n_points") or 0) < 4:
                     T.hit("skip_epa_F2_simplex_incomplete")
+                    continue
+                if "F21" in C07_KNOWN and (inward_wound(a0.get("simplex")) or inward_wound(av.get("simplex"))):
+                    T.hit("skip_epa_F21_inward_winding")
                     continue
                 tau0, tauv = K_EPA * L[0], K_EPA * Lv
                 tol = mp["s"] * tau0 + tauv
@@ -652,6 +688,8 @@ def judge_prim(scene, cases, results, T):
 # ============================================================================= main
 def run(tier, seed, replay=None):
     R = cm.Run(PID, "proof", tier, seed)
+    C07_KNOWN.clear()
+    C07_KNOWN.update(foreign_known("C07"))
     R.cov["rule"] = (
         "scene = ordered pair of colliders (10 kinds, optional Margin; streams of harness/narrow.gen_pair: random, lattice incl. "
         "identical objects, wide, constructed gap / penetration; plus overlapping polytopes and Nesterov primitives) or a call of one "
